@@ -118,7 +118,13 @@ type End struct {
 	mu        sync.Mutex
 	WritePlan []int
 	Writes    []int // bytes accepted per Write call
+	// HardErr: the partial writes of the plan end with a non-timeout error
+	// (a transient transport failure) instead of a timeout.
+	HardErr bool
 }
+
+// ErrTransient is the non-timeout error of a partial write under HardErr.
+var ErrTransient = errors.New("mitm: transient transport failure")
 
 // NewPair creates two connected ends.
 func NewPair() (*End, *End) {
@@ -146,7 +152,11 @@ func (e *End) Write(p []byte) (int, error) {
 		e.Out.write(p[:limit])
 		e.mu.Lock()
 		e.Writes = append(e.Writes, limit)
+		hard := e.HardErr
 		e.mu.Unlock()
+		if hard {
+			return limit, ErrTransient
+		}
 		return limit, TimeoutErr{}
 	}
 	e.Out.write(p)
